@@ -3,7 +3,7 @@ import ast
 
 from .index import Inconclusive, norm
 from .interp import Interp, Policy, show, show_lit, walk_effects, K, NONE, subterms, mentions
-from .callgraph import CallGraph, Escape, _own_nodes, local_names, norm_locals
+from .callgraph import CallGraph, Escape, _own_nodes, local_names, norm_locals, raise_key
 
 ALGEBRA_ENTRIES = ['_signatures:merge', '_signatures:embed', '_signatures:mask', '_signatures:_mask', '_signatures:forwards']
 PUBLIC_OPS = ['_signatures:merge', '_signatures:embed', '_signatures:mask', '_signatures:forwards',
@@ -26,7 +26,7 @@ REVIEWED_RAISES = {
     '_signatures:merge|raise:$': 'precondition n >= 1 (assert)',
     '_signatures:embed|raise:$': 'precondition n >= 1 (assert)',
     '_signatures:sort_params|raise:isinstance($, UpgradedSignature)': 'post-upgrade type assertion, cannot fail',
-    "_signatures:sort_params|raise:AssertionError('Unknown param kind {0}'.format($.kind))": 'inspect has exactly five parameter kinds',
+    "_signatures:sort_params|raise:AssertionError('Unknown param kind {0}')": 'inspect has exactly five parameter kinds',
     '_signatures:UpgradedSignature.replace|raise:isinstance($, type(self))': 'inspect.Signature.replace constructs type(self)',
     '_signatures:UpgradedParameter.replace|raise:isinstance($, type(self))': 'inspect.Parameter.replace constructs type(self)',
     '_signatures:UpgradedAnnotation.source_value|raise:NotImplementedError': 'abstract method',
@@ -188,7 +188,7 @@ def rule_containment(check, rule):
     bad = set((x.origin) for x in esc)
     for f2, node, cls in sites:
         n += 1
-        origin = '%s|raise:%s' % (f2.key, norm_locals(f2.node, node.exc)[:80])
+        origin = '%s|raise:%s' % (f2.key, raise_key(f2.node, node.exc, method=f2.cls is not None)[:80])
         key = 'contained|%s' % origin
         if origin in bad:
             continue    # reported by the fallback rule
